@@ -8,12 +8,14 @@ import (
 	"testing"
 	"time"
 
+	"github.com/uhppoted/uhppote-core/uhppote"
 	"pgregory.net/rapid"
 
 	"verif/harness/api"
 	"verif/harness/ev"
 	"verif/harness/gen"
 	"verif/harness/hook"
+	"verif/harness/memdrv"
 	"verif/harness/rp"
 	"verif/harness/spec"
 )
@@ -139,9 +141,15 @@ func validReply(c spec.Call) [][]byte {
 func decide(cs api.Case) (*rp.Fail, bool) { return decideWith(cs, hook.ClientCfg{}) }
 
 // decideWith: the verdict depends on the arguments only - never on how the client happens to be configured.
-func decideWith(cs api.Case, cfg hook.ClientCfg) (*rp.Fail, bool) {
+func decideWith(cs api.Case, cfg hook.ClientCfg) (*rp.Fail, bool) { return decideWarm(cfgCase{Case: cs, Cfg: cfg}) }
+
+func decideWarm(c cfgCase) (*rp.Fail, bool) {
+	cs, cfg := c.Case, c.Cfg
 	reject, why := mustReject(cs)
 	u, d := hook.Mem(cfg)
+	if c.WarmVersion != 0 {
+		warmUp(u, d, c)
+	}
 	d.Reset(validReply(cs.Call)...)
 	var res api.Result
 	if cs.Call.Op == "GetDevices" {
@@ -448,6 +456,45 @@ type cfgCase struct {
 	Case api.Case       `json:"case"`
 	Cfg  hook.ClientCfg `json:"cfg"`
 	Same string         `json:"coincides,omitempty"`
+	// Warm: before the judged call the same client has already talked to the controller - a get-device reply with this
+	// firmware version (0 = no warm-up), a get-status reply, and a reply to the 'get' counterpart of the judged operation that
+	// reports exactly the values the judged call is about to pass (valid or not). What a controller said earlier decides
+	// nothing about whether a call is accepted.
+	WarmVersion uint16 `json:"warm_version,omitempty"`
+}
+
+var getFor = map[string]string{"PutCard": "GetCardByID", "SetTimeProfile": "GetTimeProfile", "SetListener": "GetListener", "SetDoorControlState": "GetDoorControlState",
+	"SetTime": "GetTime", "SetEventIndex": "GetEventIndex"}
+
+func warmUp(u uhppote.IUHPPOTE, d *memdrv.Driver, c cfgCase) {
+	serial := c.Case.Call.Serial
+	if serial == 0 {
+		serial = 405419896
+	}
+	dev := make([]byte, 64)
+	spec.Header(dev, 0x17, 0x94, serial)
+	copy(dev[8:], []byte{192, 168, 1, 100, 255, 255, 255, 0, 192, 168, 1, 1, 0, 0x66, 0x19, 0x39, 0x55, 0x2d, byte(c.WarmVersion >> 8), byte(c.WarmVersion), 0x20, 0x18, 0x08, 0x16})
+	func() {
+		defer func() { recover() }()
+		d.Reset(dev)
+		u.GetDevice(serial)
+		d.Reset(dev)
+		u.GetDevices()
+		st := make([]byte, 64)
+		spec.Header(st, 0x17, 0x20, serial)
+		d.Reset(st)
+		u.GetStatus(serial)
+		if g, ok := getFor[c.Case.Call.Op]; ok && c.Case.V.ListenerRaw == "" {
+			rep := append([]byte(nil), spec.Request(c.Case.Call)...)
+			spec.Header(rep, 0x17, spec.Responses[g].Code, serial)
+			get := c.Case
+			get.Call.Op = g
+			get.Call.Serial = serial
+			d.Reset(rep)
+			api.Invoke(u, get)
+		}
+	}()
+	d.Reset()
 }
 
 func genCfgCase(t *rapid.T) cfgCase {
@@ -481,6 +528,14 @@ func genCfgCase(t *rapid.T) cfgCase {
 	if rapid.Bool().Draw(t, "other") {
 		cfg.Devices = append(cfg.Devices, hook.DeviceCfg{Name: "Beta", Serial: call.Serial ^ 0x10, HasAddr: true, IP: [4]byte{192, 168, 1, 101}, Port: 60000, Protocol: "udp", TZ: gen.DeviceTZ(t, "tz.other")})
 	}
+	if rapid.Bool().Draw(t, "warm") {
+		c.WarmVersion = rapid.SampledFrom([]uint16{0x0892, 0x0662, 0x0656, 0x0663, 0x0100, 0x0999, 0xffff, 0x0608}).Draw(t, "warm.version")
+		if rapid.IntRange(0, 3).Draw(t, "warm.dict") == 0 {
+			if v := uint16(gen.DictInt(t, "warm.version", 0xffff)); v != 0 {
+				c.WarmVersion = v
+			}
+		}
+	}
 	if rapid.IntRange(0, 2).Draw(t, "coincide") != 0 && c.Case.V.ListenerRaw == "" && c.Case.V.RawIPs == nil {
 		type ap struct {
 			name string
@@ -511,7 +566,10 @@ func genCfgCase(t *rapid.T) cfgCase {
 }
 
 func checkCfg(c cfgCase) *rp.Fail {
-	f, reject := decideWith(c.Case, c.Cfg)
+	f, reject := decideWarm(c)
+	if c.WarmVersion != 0 {
+		ev.Class("configured/after-earlier-replies-from-the-controller", 1)
+	}
 	class := "configured/accepted/" + c.Case.Call.Op
 	if reject {
 		class = "configured/rejected/" + c.Case.Call.Op
